@@ -15,7 +15,7 @@ import z3
 
 from vk.engine import SymBool
 
-NAMES = ['a', 'b', 'c', 'd', 'e', 'f']
+NAMES = ['a', 'b', 'c', 'd', 'e', 'f', 'g', 'h']
 
 
 class SymSet:
@@ -371,7 +371,7 @@ def triple(mask, outs, n):
 
 
 def jobs(tier):
-    n = 4 if tier == 'quick' else 6
+    n = 4 if tier == 'quick' else 8
     out = []
     for typ in ('time-based', 'event-based', 'hybrid'):
         for anyi in (False, True):
